@@ -3,10 +3,12 @@
    in Proofs/RTree_proofs.v (boxes, RangeSearch), Proofs/RTree_bulk_proofs.v (bulk loading, Count,
    Extent), Proofs/RTree_qp_proofs.v (quickPartition's contract), Proofs/RTree_prio_proofs.v
    (PrioritySearch, Nearest over an abstract minimum queue), Proofs/RTree_heap_proofs.v (the real
-   queue: Go's container/heap on entriesQueue, Model/RTreeHeap.v). *)
+   queue: Go's container/heap on entriesQueue, Model/RTreeHeap.v), Proofs/RTree_scale_proofs.v
+   (rescaled populations, Model/RTreeScale.v). *)
 From Coq Require Import ZArith List Bool Permutation.
-From SF Require Import Base.Outcome Model.RTree Model.RTreeHeap Proofs.RTree_proofs
-     Proofs.RTree_bulk_proofs Proofs.RTree_qp_proofs Proofs.RTree_prio_proofs Proofs.RTree_heap_proofs.
+From SF Require Import Base.Outcome Model.RTree Model.RTreeHeap Model.RTreeScale Proofs.RTree_proofs
+     Proofs.RTree_bulk_proofs Proofs.RTree_qp_proofs Proofs.RTree_prio_proofs Proofs.RTree_heap_proofs
+     Proofs.RTree_scale_proofs.
 Import ListNotations.
 Open Scope Z_scope.
 
@@ -269,4 +271,123 @@ Theorem count_extent_spec : forall items,
 Proof. exact count_extent_spec_lemma. Qed.
 Print Assumptions count_extent_spec.
 Example extent_example : extent ex_tree = Some (MkBox 0 0 11 1) /\ count ex_tree = 11%nat.
+Proof. vm_compute. auto. Qed.
+
+(* ---------------------------------------------------------------- rescaled populations *)
+(* The correspondence run also multiplies an integer layout by an exact power of two 2^k
+   (-1074 <= k <= 1000; every ordinate, and every comparison, sum and difference the implementation
+   forms of them, stays exact) and judges the implementation's answers on the integer pre-image.
+   This is justified by scale equivariance of the whole model: for every factor s > 0, bulk loading
+   the scaled items gives the scaled tree (same shape, same ids), and every search on the scaled tree
+   with the scaled query visits the same records in the same order and returns the same value. *)
+Theorem bulk_load_scale : forall s, 0 < s -> forall items,
+  bulk_load (map (scale_item s) items) = omap (scale_tree s) (bulk_load items).
+Proof. exact bulk_load_scale_lemma. Qed.
+Print Assumptions bulk_load_scale.
+
+Theorem tree_inv_scale : forall s, 0 < s -> forall t, tree_inv (scale_tree s t) = tree_inv t.
+Proof. exact tree_inv_scale_lemma. Qed.
+Print Assumptions tree_inv_scale.
+
+Theorem range_search_scale : forall s, 0 < s -> forall q cb t,
+  range_search (scale_box s q) cb (scale_tree s t)
+  = (map (scale_item s) (fst (range_search q cb t)), snd (range_search q cb t)).
+Proof. exact range_search_scale_lemma. Qed.
+Print Assumptions range_search_scale.
+
+Theorem priority_search_heap_scale : forall s, 0 < s -> forall q cb t,
+  priority_search_heap (scale_box s q) cb (scale_tree s t)
+  = option_map (fun r => (map (scale_item s) (fst r), snd r)) (priority_search_heap q cb t).
+Proof. exact priority_search_heap_scale_lemma. Qed.
+Print Assumptions priority_search_heap_scale.
+
+Theorem nearest_heap_scale : forall s, 0 < s -> forall q t,
+  nearest_heap (scale_tree s t) (scale_box s q) = option_map (option_map (scale_item s)) (nearest_heap t q).
+Proof. exact nearest_heap_scale_lemma. Qed.
+Print Assumptions nearest_heap_scale.
+
+Theorem count_extent_scale : forall s, 0 < s -> forall t,
+  count (scale_tree s t) = count t /\ extent (scale_tree s t) = option_map (scale_box s) (extent t).
+Proof. intros s Hs t. split; [apply count_scale_lemma|apply extent_scale_lemma; exact Hs]. Qed.
+Print Assumptions count_extent_scale.
+
+(* the box predicates the searches are built on: sharing a point is invariant, the squared distance
+   scales by s*s (so its order and its ties are invariant) *)
+Theorem box_predicates_scale : forall s, 0 < s -> forall a b,
+  overlap (scale_box s a) (scale_box s b) = overlap a b /\
+  sqdist (scale_box s a) (scale_box s b) = s * s * sqdist a b /\
+  combine (scale_box s a) (scale_box s b) = scale_box s (combine a b).
+Proof.
+  intros s Hs a b. split; [apply overlap_scale; exact Hs|]. split; [apply sqdist_scale; exact Hs|apply combine_scale; exact Hs].
+Qed.
+Print Assumptions box_predicates_scale.
+
+(* the executable statements give the same verdict on a scaled trace as on its pre-image *)
+Theorem specs_scale : forall s, 0 < s -> forall items q cb v ret r e,
+  range_ok (map (scale_item s) items) (scale_box s q) cb (map (scale_item s) v) ret = range_ok items q cb v ret /\
+  prio_ok (map (scale_item s) items) (scale_box s q) cb (map (scale_item s) v) ret = prio_ok items q cb v ret /\
+  nearest_ok (map (scale_item s) items) (scale_box s q) (option_map (scale_item s) r) = nearest_ok items q r /\
+  extent_ok (map (scale_item s) items) (option_map (scale_box s) e) = extent_ok items e /\
+  count_ok (map (scale_item s) items) = count_ok items.
+Proof.
+  intros s Hs items q cb v ret r e.
+  split; [apply range_ok_scale_lemma; exact Hs|]. split; [apply prio_ok_scale_lemma; exact Hs|].
+  split; [apply nearest_ok_scale_lemma; exact Hs|]. split; [apply extent_ok_scale_lemma; exact Hs|].
+  unfold count_ok. rewrite map_length. reflexivity.
+Qed.
+Print Assumptions specs_scale.
+Example scale_example :
+  bulk_load (map (scale_item 1024) (ex_row 11)) = Ok (scale_tree 1024 ex_tree) /\
+  map iid (fst (range_search (scale_box 1024 (MkBox 3 0 6 0)) (script 9 Stop) (scale_tree 1024 ex_tree)))
+  = [2; 3; 4; 5; 6] /\
+  match priority_search_heap (scale_box 1024 (MkBox 5 3 5 3)) (script 3 WrappedStop) (scale_tree 1024 ex_tree) with
+  | Some (v, r) => map iid v = [4; 5; 3; 6] /\ r = RNil
+  | None => False
+  end.
+Proof. vm_compute. auto. Qed.
+
+(* Where the implementation's float64 squared distances are rounded (they underflow for ordinates
+   below about 2^-538 and overflow above about 2^489) the run evaluates the order clause of the
+   PrioritySearch / Nearest statement with the weaker order "x may come before y when the true
+   distances say so or the rounded keys say so" (prio_ok_rel / nearest_ok_rel with le_or).  With the
+   exact order these ARE prio_ok / nearest_ok, they are monotone in the order, hence the weaker
+   statement is implied by the property's statement for any rounded comparison whatsoever: the run
+   never demands more there than the property states. *)
+Theorem prio_ok_rel_exact : forall q items cb visits ret,
+  prio_ok_rel (le_dist q) items cb visits ret = prio_ok items q cb visits ret.
+Proof. exact prio_ok_rel_exact_lemma. Qed.
+Print Assumptions prio_ok_rel_exact.
+
+Theorem nearest_ok_rel_exact : forall q items r,
+  nearest_ok_rel (le_dist q) items r = nearest_ok items q r.
+Proof. exact nearest_ok_rel_exact_lemma. Qed.
+Print Assumptions nearest_ok_rel_exact.
+
+Theorem ok_rel_monotone : forall (le le' : item -> item -> bool),
+  (forall x y, le x y = true -> le' x y = true) ->
+  (forall items cb visits ret,
+     prio_ok_rel le items cb visits ret = true -> prio_ok_rel le' items cb visits ret = true) /\
+  (forall items r, nearest_ok_rel le items r = true -> nearest_ok_rel le' items r = true).
+Proof.
+  intros le le' H. split.
+  - exact (prio_ok_rel_weaken_lemma le le' H).
+  - exact (nearest_ok_rel_weaken_lemma le le' H).
+Qed.
+Print Assumptions ok_rel_monotone.
+
+Theorem rounded_statement_implied : forall q (other : item -> item -> bool) items cb visits ret r,
+  (prio_ok items q cb visits ret = true -> prio_ok_rel (le_or q other) items cb visits ret = true) /\
+  (nearest_ok items q r = true -> nearest_ok_rel (le_or q other) items r = true).
+Proof.
+  intros. split; [apply prio_ok_implies_rounded_lemma|apply nearest_ok_implies_rounded_lemma].
+Qed.
+Print Assumptions rounded_statement_implied.
+Example ok_rel_example :
+  (* a trace in the order of rounded keys that cannot tell the two records apart (every key 0) is
+     accepted by the weaker statement and rejected by the exact one *)
+  let a := MkItem (MkBox 3 0 4 1) 1 in let b := MkItem (MkBox 1 0 2 1) 2 in
+  let q := MkBox 0 0 0 0 in
+  prio_ok_rel (le_or q (fun _ _ => true)) [a; b] (script 5 Stop) [a; b] RNil = true /\
+  prio_ok [a; b] q (script 5 Stop) [a; b] RNil = false /\
+  prio_ok_rel (le_or q (fun _ _ => false)) [a; b] (script 5 Stop) [a; b] RNil = false.
 Proof. vm_compute. auto. Qed.
